@@ -14,6 +14,8 @@ CATALOGUE = [
     "m", "km", "mm", "cm", "s", "h", "d", "kg", "g", "m/s", "km/h", "mm/d", "m s-1", "kg m-2 s-1", "mm/s",
     "m2", "ha", "L/m**2", "m**3/s", "L/s", "Pa", "hPa", "N/m**2", "W/m**2", "J", "degC", "K", "degF", "%", "1", "",
     "percent", "dimensionless", "g/cm**3", "kg/m**3",
+    # spellings that differ only in blanks but mean different units (a blank is a multiplication sign)
+    "ms-1", "m s", "ms",
 ]
 
 
@@ -201,14 +203,14 @@ EXPLANATION = (
     "link is pulled three times (later pulls come from the input's cache) and must deliver the converted data every time."
 )
 ASSUMPTIONS = ["pint is the oracle for (compatible, factor, offset) of each catalogue pair",
-               "catalogue of 34 unit strings (vf/props/c17.py CATALOGUE)"]
+               "catalogue of 38 unit strings (incl. spellings differing only in blanks) (vf/props/c17.py CATALOGUE)"]
 
 
 def families(tier):
     q = tier == "quick"
     cat = CATALOGUE
     small = ["m", "km", "s", "degC", "K", "%", "1", "", "mm/d", "m s-1", "kg m-2 s-1", "hPa", "Pa", "mm", "L/m**2",
-             "N/m**2"]
+             "N/m**2", "ms-1"]
     pairs = _all_pairs(small if q else cat)
     fams = [
         dict(name="memo:induction", ref="vf.props.c17:h_memo",
